@@ -53,6 +53,7 @@ pub fn check_cursor_results(
             let ti = refscan::scan(input);
             let cu = *c as usize;
             let in_blanks = ti.iter().any(|t| cu >= t.ws_start && cu < t.start);
+            let multibyte_blanks = ti.iter().any(|t| cu >= t.ws_start && cu < t.start && !input[t.ws_start..t.start].is_ascii());
             let has_toggle = ti
                 .iter()
                 .any(|t| t.kind.is_comment() && crate::model::toggle::parse_toggle(t.text(input)).is_some());
@@ -62,6 +63,7 @@ pub fn check_cursor_results(
             )
             .fact(if in_blanks { "cursor-in-blanks" } else { "cursor-in-token" })
             .fact(if has_toggle { "has-toggle" } else { "no-toggle" })
+            .fact(if multibyte_blanks { "blanks-have-multibyte-char" } else { "blanks-ascii" })
             .fact(if cfg.crlf { "cfg:crlf" } else { "cfg:lf" }));
         }
         if *c as usize > input.len() && r != out.len() {
